@@ -8,7 +8,7 @@ theorems of `lean/SpVerif/Proofs/GeneratedBits.lean` (generated def = the hand-w
 arithmetic) have to be re-proved against it.
 
 Sub-language: names / attribute reads / `x[<literal or name>]` (-> Lean parameters), integer literals,
-`<< >> & | ^ + - * // %`, `x & ~m` (-> `andNot`), `int(e)`, module constants and enum members that
+`<< >> & | ^ + - * // %`, `x & ~m` (-> `andNot`), `int(e)`, `pow(2, n)` / `2 ** n` (-> `2 ^ n`), module constants and enum members that
 are integers (resolved by importing the module from the repo and reading the value), and configured
 calls of another translated expression (`self.packet_id.raw()`). Everything else is refused: the
 tool exits non-zero and names the expression; it never guesses.
@@ -42,6 +42,10 @@ MD = "spacepackets/cfdp/pdu/metadata.py"
 PR = "spacepackets/cfdp/pdu/prompt.py"
 FD = "spacepackets/cfdp/pdu/file_data.py"
 TLV = "spacepackets/cfdp/tlv/tlv.py"
+RID = "spacepackets/ecss/req_id.py"
+CDS = "spacepackets/ccsds/time/cds.py"
+SEQ = "spacepackets/seqcount.py"
+UTIL = "spacepackets/util.py"
 
 
 def E(name, file, qual, sel, owners, inline=None):
@@ -54,6 +58,8 @@ def E(name, file, qual, sel, owners, inline=None):
 #   ("call", "<func>", n=0)    the n-th call whose callee reads <func> (e.g. "header.append", "struct.pack")
 #   ("if", n=0)                test of the n-th if statement
 #   ("arg", k) ("kw", "<name>") argument of the selected call;  ("elt", k) element of a tuple / list display
+#   ("operand", k)             operand of the selected comparison (0 = left, k = k-th comparator) or of the
+#                              selected `and` / `or` (k-th value)
 #   ("unwrap", "<func>")       the single argument of a call of <func> (enum constructor, bool, bytes, ...)
 EXPRESSIONS: List[Dict[str, Any]] = [
     # ---- CCSDS space packet primary header (C01) ------------------------------------------------
@@ -182,6 +188,37 @@ EXPRESSIONS: List[Dict[str, Any]] = [
       [("assign", "fault_handler_tlv.condition_code")], ["C08"]),
     E("faultHandler_unpack_handler_code", TLV, "FaultHandlerOverrideTlv.from_tlv",
       [("assign", "fault_handler_tlv.handler_code")], ["C08"]),
+    # ---- PUS request id (C15) -------------------------------------------------------------------
+    E("reqId_unpack_version", RID, "RequestId.unpack", [("return",), ("kw", "ccsds_version")], ["C15"]),
+    E("reqId_pack_word0", RID, "RequestId.pack", [("assign", "packet_id_and_version")], ["C15"],
+      inline={"self.tc_packet_id.raw()": "packetId_raw"}),
+    E("reqId_pack_word1", RID, "RequestId.pack", [("call", "struct.pack", 1), ("arg", 1)], ["C15"],
+      inline={"self.tc_psc.raw()": "packetSeqCtrl_raw"}),
+    E("reqId_as_u32_word0", RID, "RequestId.as_u32", [("assign", "packet_id_and_version")], ["C15"],
+      inline={"self.tc_packet_id.raw()": "packetId_raw"}),
+    E("reqId_as_u32", RID, "RequestId.as_u32", [("return",)], ["C15"],
+      inline={"self.tc_psc.raw()": "packetSeqCtrl_raw"}),
+    # ---- CDS short timestamp (C14) --------------------------------------------------------------
+    E("cds_pfield", CDS, "CdsShortTimestamp.__init__", [("call", "bytes", 0), ("arg", 0), ("elt", 0)], ["C14"]),
+    E("cds_len_of_day_seg", CDS, "len_of_day_seg_from_pfield", [("return",), ("unwrap", "LenOfDaysSegment")], ["C14"]),
+    E("cds_unpack_time_code", CDS, "CdsShortTimestamp.unpack_from_raw", [("if", 1), ("operand", 0)], ["C14"]),
+    E("cds_unix_seconds_of_days", CDS, "CdsShortTimestamp._calculate_unix_seconds", [("assign", "self._unix_seconds")], ["C14"]),
+    E("cds_add_ms_of_day", CDS, "CdsShortTimestamp.__add__", [("assign", "ms_of_day")], ["C14"]),
+    E("cds_add_ms_per_day", CDS, "CdsShortTimestamp.__add__", [("if", 1), ("operand", 1)], ["C14"]),
+    E("cds_add_max_days", CDS, "CdsShortTimestamp.__add__", [("if", 2), ("operand", 1)], ["C14"]),
+    E("cds_from_datetime_ms", CDS, "CdsShortTimestamp.from_datetime", [("assign", "instance._ms_of_day")], ["C14"]),
+    # ---- sequence counters (C19) ----------------------------------------------------------------
+    E("seqMem_modulus", SEQ, "SeqCountProvider.get_and_increment", [("assign", "modulus")], ["C19"]),
+    E("seqMem_curr_count", SEQ, "SeqCountProvider.get_and_increment", [("assign", "curr_count")], ["C19"]),
+    E("seqMem_next_count", SEQ, "SeqCountProvider.get_and_increment", [("assign", "self.count")], ["C19"]),
+    E("seqFile_check_max", SEQ, "FileSeqCountProvider.check_count", [("if", 1), ("operand", 1), ("operand", 1)], ["C19"]),
+    E("seqFile_incr_max", SEQ, "FileSeqCountProvider._increment_with_rollover", [("if", 0), ("operand", 1)], ["C19"]),
+    E("seqFile_incr_next", SEQ, "FileSeqCountProvider._increment_with_rollover", [("return", 1)], ["C19"]),
+    # ---- integer <-> octets helpers and unsigned byte fields (C20) -------------------------------
+    E("toSigned_max", UTIL, "IntByteConversion.to_signed", [("if", 2), ("operand", 1)], ["C20"]),
+    E("toUnsigned_max", UTIL, "IntByteConversion.to_unsigned", [("if", 2), ("operand", 1)], ["C20"]),
+    E("byteField_verify_int_max", UTIL, "UnsignedByteField._verify_int_value",
+      [("if", 0), ("operand", 0), ("operand", 1)], ["C20"]),
 ]
 
 
@@ -301,6 +338,17 @@ def select(src: str, fn: ast.FunctionDef, sel: List[tuple]) -> Tuple[ast.AST, Li
             if not isinstance(cur, (ast.Tuple, ast.List)) or step[1] >= len(cur.elts):
                 raise Unsupported(f"element {step[1]}: not a tuple / list display of that size")
             cur = cur.elts[step[1]]
+        elif kind == "operand":
+            k = step[1]
+            if isinstance(cur, ast.Compare):
+                ops = [cur.left] + list(cur.comparators)
+            elif isinstance(cur, ast.BoolOp):
+                ops = list(cur.values)
+            else:
+                raise Unsupported(f"operand {k}: not a comparison / `and` / `or`")
+            if k >= len(ops):
+                raise Unsupported(f"operand {k} not found")
+            cur = ops[k]
         elif kind == "unwrap":
             if not (isinstance(cur, ast.Call) and len(cur.args) == 1 and not cur.keywords
                     and not isinstance(cur.args[0], ast.Starred) and oneline(seg(src, cur.func)) == step[1]):
@@ -444,6 +492,8 @@ class Translator:
                 return "0b" + lit[2:]
             return str(v)
         if isinstance(node, ast.BinOp):
+            if isinstance(node.op, ast.Pow):
+                return self.pow2(node.left, node.right, text)
             op = BINOPS.get(type(node.op))
             if op is None:
                 raise Unsupported(f"operator `{type(node.op).__name__}` in `{text}`")
@@ -460,10 +510,20 @@ class Translator:
             if (isinstance(node.func, ast.Name) and node.func.id == "int" and "int" not in self.locals
                     and len(node.args) == 1 and not node.keywords and not isinstance(node.args[0], ast.Starred)):
                 return self.tr(node.args[0])
+            if (isinstance(node.func, ast.Name) and node.func.id == "pow" and "pow" not in self.locals
+                    and len(node.args) == 2 and not node.keywords and not any(isinstance(a, ast.Starred) for a in node.args)):
+                return self.pow2(node.args[0], node.args[1], text)
             raise Unsupported(f"call `{text}`")
         if isinstance(node, (ast.Name, ast.Attribute, ast.Subscript)):
             return self.atom(node)
         raise Unsupported(f"syntax `{type(node).__name__}`: `{text[:80]}`")
+
+    def pow2(self, base: ast.AST, exp: ast.AST, text: str) -> str:
+        """`pow(2, n)` / `2 ** n` with a non-negative exponent (a `Nat` term) -> `2 ^ n`"""
+        if not (isinstance(base, ast.Constant) and isinstance(base.value, int) and not isinstance(base.value, bool)
+                and base.value == 2):
+            raise Unsupported(f"power `{text}` (only base 2 is translated)")
+        return f"(2 ^ {self.tr_arg(exp)})"
 
     def tr_arg(self, node: ast.AST) -> str:
         s = self.tr(node)
@@ -543,7 +603,8 @@ equal to the arithmetic of the hand-written model.
 Python `int` operators are rendered on `Nat`: `<<` `>>` `&` `|` `^` as `<<<` `>>>` `&&&` `|||` `^^^`,
 `//` `%` as `/` `%` (all operands are non-negative in the domain of the theorems), `-` as truncated
 subtraction (the theorems carry the hypotheses under which it does not truncate), and `x & ~m` as
-`andNot x m = x - (x &&& m)` (clearing the bits of `m`; equal to Python's result for `x, m ≥ 0`).
+`andNot x m = x - (x &&& m)` (clearing the bits of `m`; equal to Python's result for `x, m ≥ 0`),
+`pow(2, n)` / `2 ** n` as `2 ^ n` (the exponent is a `Nat` term: non-negative).
 -/
 namespace SpVerif.Generated
 
